@@ -86,7 +86,13 @@ func init() {
 			for i := 0; i < 200; i++ {
 				fr = append(fr, fmt.Sprintf("%d/%d", 1+rng.Intn(999), 1+rng.Intn(999)))
 			}
-			cases = append(cases, Case{"cmd": "scalar", "field": "value", "vals": fr}, Case{"cmd": "scalar", "field": "meter", "vals": fr})
+			// a meter is a pair of numbers of 1..255 each (what a MIDI time signature can carry; larger ones are refused: C07)
+			mt := append([]string{}, fr[:256]...)
+			for i := 0; i < 200; i++ {
+				mt = append(mt, fmt.Sprintf("%d/%d", 1+rng.Intn(255), 1+rng.Intn(255)))
+			}
+			mt = append(mt, "255/255", "255/1", "1/255", "128/128")
+			cases = append(cases, Case{"cmd": "scalar", "field": "value", "vals": fr}, Case{"cmd": "scalar", "field": "meter", "vals": mt})
 			cases = append(cases, Case{"cmd": "scalar", "field": "velocity", "vals": dynamics})
 			bp := []string{}
 			for _, b := range []int{1, 2, 3, 4, 59, 60, 100, 120, 121, 240, 999, 1000, 65535, 65536, 1000000, 60000000} {
